@@ -35,6 +35,7 @@ type Chain struct {
 	Tail      string `json:"tail"`     // absent|null|self|earlier0..3|404|wrongtype|nonjson
 	Single    bool   `json:"single"`   // size-1 item lists are written as a bare value
 	Mismatch  bool   `json:"mismatch"` // items under the other kind's key (statement is silent: crash-check only)
+	Extras    bool   `json:"extras"`   // pages also carry first / last / prev (as real servers send them), the root carries last
 }
 
 const base = "https://h1.example/c"
@@ -94,6 +95,13 @@ func (c Chain) build(w *world.W) (object.Object, []truthPage) {
 	for k, p := range c.Pages {
 		ids, v := mkItems(p.Size)
 		pages[k] = map[string]any{"type": pageType, "id": pageURL(k), "partOf": base}
+		if c.Extras {
+			pages[k]["first"] = pageURL(0)
+			pages[k]["last"] = pageURL(len(c.Pages) - 1)
+			if k > 0 {
+				pages[k]["prev"] = pageURL(k - 1)
+			}
+		}
 		pages[k][c.itemsKey(true)] = v
 		truth = append(truth, truthPage{Items: ids, Next: -1})
 	}
@@ -137,6 +145,10 @@ func (c Chain) build(w *world.W) (object.Object, []truthPage) {
 			}
 			truth[k+1].Next = k + 2
 		}
+	}
+	if c.Extras && len(c.Pages) > 0 {
+		root["last"] = pageURL(len(c.Pages) - 1)
+		root["current"] = pageURL(0)
 	}
 	if len(c.Pages) > 0 {
 		if c.Pages[0].Remote {
@@ -395,6 +407,11 @@ func chains(thorough bool) []Chain {
 							c.Pages = append(c.Pages, Page{Size: s, Remote: remote})
 						}
 						out = append(out, c)
+						if placement == 1 && len(v) > 0 && (tail == "absent" || tail == "null" || tail == "404") {
+							x := c
+							x.Extras = true
+							out = append(out, x)
+						}
 						if placement == 0 && (rootItems == 1 || contains(v, 1)) && (tail == "absent" || tail == "self") {
 							s := c
 							s.Single = true
@@ -485,7 +502,7 @@ func explore(r *ev.Report, c Chain, curFile string) {
 func main() {
 	r := ev.New("C10", "model_checking",
 		"page chains: kind {Collection, OrderedCollection} x root items {absent,0,1,2} x page-size vectors (<=3 pages of size 0..2 quick, <=4 pages of size 0..3 thorough) x placement {embedded, remote, alternating} x "+
-			"tail {absent, null, self-cycle, cycle to each earlier page, 404, wrong type, non-JSON} (+ single-value item lists); per chain an explicit-state search over request sequences with sizes {0,1,2,3,4,7} "+
+			"tail {absent, null, self-cycle, cycle to each earlier page, 404, wrong type, non-JSON} (+ single-value item lists, + pages that also carry first/last/prev as real servers send them); per chain an explicit-state search over request sequences with sizes {0,1,2,3,4,7} "+
 			"(state = items delivered so far), each transition replayed on a fresh Collection through the continuation protocol, plus all unmerged request pairs and first requests with start offsets 1,2,3,5; distinct_nontrivial = chains with at least two pages or a cycle")
 	debug.SetMaxStack(64 << 20)
 	if *ev.FlagReplay != "" {
